@@ -22,6 +22,14 @@ physical write buffers, the slice headers in `toWriter` and the aliasing of
 `WriteBuf` are explicit; `C11_conn_ring_refines` proves the ownership
 invariant of the ring and that it refines `Sender` step for step.
 
+Transport faults are a third model of the send half, `FSender`: the `i`-th
+`conn.Write` may fail after any number of bytes (`Fault`), the writer goroutine
+records `writerErr` and goes on, `Flush`/`Close` have their early-return error
+paths; quantified over every fault pattern, every schedule, every operation
+list (`C11_conn_fault_*`; `C11_old_writer_gap_witness` keeps the behaviour before the
+fix f07ee15 as a witness).  A stream that ends inside a value is covered by
+`C11_conn_recv_eof_mid_value`.
+
 Domain guard (explicit hypothesis `Val.Valid`): `u16 < 2^16`, `u32 < 2^32`,
 payload and list lengths `< 2^32`, labels `< 2^128`.  Outside it the Go code
 truncates (`uint32(val)`) and nothing is claimed.
@@ -134,6 +142,31 @@ theorem C11_conn_recv (frag : Frag) (vs : List Val) (hv : ∀ v ∈ vs, v.Valid)
   · have := a.recvd_eq; simpa [Recv.init] using this
   · have h1 := i.pos_le; have h2 := a.pend_eq; rw [h2] at h1; simpa [Recv.init] using h1
 
+/-- **conn_recv_eof_mid_value.**  If the transport's stream ends in the middle
+of a value - after the complete encodings of `vs` only a proper prefix `p` of
+the encoding of a further value `v` arrives, under any fragmentation - then
+the matching typed receives return exactly `vs`, the receive of `v` fails with
+the transport's end-of-stream error, nothing after it is attempted, and no
+partial value is ever reported as received (for `ReceiveData/ReceiveString`
+this includes a complete length prefix followed by a short body, for
+`ReceiveInputSizes` a complete count followed by too few entries). -/
+theorem C11_conn_recv_eof_mid_value (frag : Frag) (vs : List Val) (hv : ∀ v ∈ vs, v.Valid)
+    (v : Val) (hvv : v.Valid) (p q : ByteArray) (hp : p.size < v.encode.size)
+    (hpq : p ++ q = v.encode) (more : List Kind) :
+    ∃ r', (Recv.init (encodeVals vs ++ p)).recvAll frag (vs.map Val.kind ++ v.kind :: more)
+        = (vs, r', some Err.eof) ∧ r'.unread = p := by
+  obtain ⟨r1, i1, u1, _, e⟩ := recvAll_spec_append frag vs hv (v.kind :: more) _ (RInv_init _) p
+    (unread_init _)
+  have herr := recvVal_eof frag v hvv r1 i1 p q hp hpq u1
+  refine ⟨r1, ?_, u1⟩
+  rw [e]
+  simp [Recv.recvAll, herr]
+
+/-- non-vacuity: a data value of 3 bytes cut after its length prefix and one body byte -/
+example : ∃ (v : Val) (p q : ByteArray), v.Valid ∧ p.size < v.encode.size ∧ p ++ q = v.encode ∧ 4 < p.size :=
+  ⟨.data [1, 2, 3].toByteArray, [0, 0, 0, 3, 1].toByteArray, [2, 3].toByteArray,
+   by simp [Val.Valid], by decide, by decide, by decide⟩
+
 /-- Example values of every kind, including the empty payload, for non-vacuity. -/
 def exampleVals : List Val :=
   [.byte 0xab, .u16 65535, .u32 4294967295, .data ByteArray.empty, .data [1, 2, 3].toByteArray,
@@ -241,6 +274,117 @@ theorem C11_conn_ring_send_inv (sch : Sched) (ops : List Op) :
   exact h0
 
 example (sch : Sched) := C11_conn_ring_refines sch exampleOps
+
+/-! ## Transport faults: the writer goroutine's error path -/
+
+/-- **conn_fault_prefix.**  The transport's `i`-th `Write` may fail after any
+number of bytes (`fault i = some k`: short write + error), and it may recover
+afterwards - EVERY fault pattern.  For every operation list, every writer
+schedule and any number `j` of further writer iterations, both before and
+after `Close`: the bytes that reached the transport are a PREFIX of the
+encoding of the operations - no gap, no duplicate, no reordering - although
+the writer goroutine keeps taking buffers, a failed `Flush` leaves `WritePos`
+unchanged and `Close` queues that buffer a second time: since /repo f07ee15
+the writer goroutine does not write any more once a `Write` has failed.  (The
+caller stops at its first error and calls `Close`.) -/
+theorem C11_conn_fault_prefix (fault : Fault) (sch : Sched) (ops : List Op) (j : Nat) :
+    let r := FSender.init.run fault sch ops
+    let c := r.1.close fault sch
+    (∃ rem, joinB (r.1.writerSteps fault j).wire ++ rem = encodeAll ops) ∧
+    (∃ rem, joinB (c.1.writerSteps fault j).wire ++ rem = encodeAll ops) := by
+  intro r c
+  obtain ⟨r1, r2⟩ := run_out fault sch ops FSender.init ByteArray.empty (FInv_init fault)
+  rw [ByteArray.empty_append] at r1 r2
+  cases hok : r.2.2 with
+  | true =>
+    have hi := r1 hok
+    obtain ⟨c1, c2⟩ := close_finv fault sch r.1 _ hi
+    refine ⟨(FInv_writerSteps fault j _ _ hi).wire_prefix, ?_⟩
+    cases hc : c.2 with
+    | true => exact (FInv_writerSteps fault j _ _ (c1 hc).1).wire_prefix
+    | false => exact (FDead_writerSteps fault j _ _ (c2 hc)).pre
+  | false =>
+    have hd := r2 hok
+    obtain ⟨_, d2⟩ := close_dead fault sch r.1 _ hd
+    exact ⟨(FDead_writerSteps fault j _ _ hd).pre, (FDead_writerSteps fault j _ _ d2).pre⟩
+
+/-- **No success is reported silently** (every fault pattern, sticky or not).
+(1) If every operation and `Close` returned `nil`, then every byte was written:
+the wire is exactly the encoding of the operations, nothing is queued and
+`Stats.Sent` is its length.  (2) Once an operation has returned an error,
+`writerErr` is set for good, every later `Flush` with buffered data fails and
+`Close` fails.  (3) Whenever any `Write` has failed by the time `Close`
+returns, `Close` returns an error. -/
+theorem C11_conn_fault_reported (fault : Fault) (sch : Sched) (ops : List Op) :
+    let r := FSender.init.run fault sch ops
+    let c := r.1.close fault sch
+    (r.2.2 = true → c.2 = true →
+      joinB c.1.wire = encodeAll ops ∧ c.1.queue = [] ∧ c.1.werr = false ∧
+      c.1.sent = (encodeAll ops).size) ∧
+    (r.2.2 = false → r.1.werr = true ∧ c.2 = false ∧
+      ∀ k, r.1.cur.size ≠ 0 → (r.1.flush fault k).2 = false) ∧
+    (c.1.werr = true → c.2 = false) := by
+  intro r c
+  obtain ⟨r1, r2⟩ := run_out fault sch ops FSender.init ByteArray.empty (FInv_init fault)
+  rw [ByteArray.empty_append] at r1 r2
+  refine ⟨fun hok hc => ?_, fun hbad => ?_, close_reports fault sch r.1⟩
+  · exact ((close_finv fault sch r.1 _ (r1 hok)).1 hc).2
+  · have hd := r2 hbad
+    exact ⟨hd.werr, (close_dead fault sch r.1 _ hd).1, fun k => (flush_dead fault k r.1 _ hd).2⟩
+
+/-- On a transport without faults the fault model never reports an error
+(so by `C11_conn_fault_reported` it delivers everything: the error paths do
+not disturb the fault-free behaviour). -/
+theorem C11_conn_fault_free_ok (sch : Sched) (ops : List Op) :
+    let r := FSender.init.run (fun _ => none) sch ops
+    let c := r.1.close (fun _ => none) sch
+    r.2.2 = true ∧ c.2 = true ∧ joinB c.1.wire = encodeAll ops := by
+  intro r c
+  obtain ⟨r1, r2⟩ := run_out (fun _ => none) sch ops FSender.init ByteArray.empty (FInv_init _)
+  rw [ByteArray.empty_append] at r1 r2
+  have nodead : ∀ (s : FSender) (B : ByteArray), ¬ FDead (fun _ => none) s B := by
+    intro s B hd
+    obtain ⟨i, hne⟩ := hd.core.dirty hd.werr
+    exact hne rfl
+  have hok : r.2.2 = true := by
+    cases h : r.2.2 with
+    | true => rfl
+    | false => exact absurd (r2 h) (nodead _ _)
+  obtain ⟨c1, c2⟩ := close_finv (fun _ => none) sch r.1 _ (r1 hok)
+  have hc : c.2 = true := by
+    cases h : c.2 with
+    | true => rfl
+    | false => exact absurd (c2 h) (nodead _ _)
+  exact ⟨hok, hc, (c1 hc).2.1⟩
+
+/-- A transport with a TRANSIENT fault: only its first `Write` fails. -/
+def gapFault : Fault := fun i => if i = 0 then some 0 else none
+/-- two chunks `01` and `02` queued for the writer goroutine -/
+def gapState : FSender := { queue := [[1].toByteArray, [2].toByteArray] }
+
+/-- **old_writer_gap_witness** (finding `C11-writer-continues-after-write-error`,
+fixed by /repo f07ee15).  With the writer iteration as it was BEFORE the fix
+(`FSender.writerStepOld`: `conn.Write` unconditionally) and a transient fault,
+two iterations over the queued chunks `01`, `02` put `02` on the wire without
+the `01` before it - not a prefix of what was handed over.  The current writer
+iteration writes nothing after the failed `Write`; both set `writerErr`. -/
+theorem C11_old_writer_gap_witness :
+    let old := (gapState.writerStepOld gapFault).writerStepOld gapFault
+    let new := (gapState.writerStep gapFault).writerStep gapFault
+    joinB old.handed = [1, 2].toByteArray ∧ joinB old.wire = [2].toByteArray ∧ old.werr = true ∧
+    (¬ ∃ rem, joinB old.wire ++ rem = joinB old.handed) ∧
+    joinB new.handed = [1, 2].toByteArray ∧ joinB new.wire = ByteArray.empty ∧ new.werr = true := by
+  intro old new
+  have hw : joinB old.wire = [2].toByteArray := by decide
+  have hh : joinB old.handed = [1, 2].toByteArray := by decide
+  refine ⟨hh, hw, by decide, ?_, by decide, by decide, by decide⟩
+  rintro ⟨rem, h⟩
+  rw [hw, hh] at h
+  have h1 : ([2].toByteArray ++ rem).extract 0 1 = [2].toByteArray :=
+    ByteArray.extract_append_eq_left (by decide)
+  rw [h] at h1
+  revert h1
+  decide
 
 /-- The fixed-width encodings are big-endian and decode to the value sent
 (what `ReceiveUint16/32/Label` compute from the window). -/
